@@ -144,3 +144,83 @@ def gen_c01(seed, ncases, maxlen=30, prepop=None):
         c.dump()
         cases.append(c)
     return cases
+
+
+# ---------------------------------------------------------------- lists (C09)
+ELEMS = [b"a", b"b", b"c", b"a", b"", b"x\r\ny", b"\x00\xff", b"A", b"dup", b"dup", b"10"]
+CNTS = [b"0", b"1", b"2", b"3", b"5", b"-1", b"-2", b"-3", b"100", b"-100", b"9223372036854775807",
+        b"-9223372036854775808", b"x", b""]
+
+
+def list_cmd(r, keys):
+    k = lambda: pick(r, keys)
+    e = lambda: pick(r, ELEMS)
+    c = r.randrange(100)
+    if c < 14:
+        return [pick(r, [b"lpush", b"rpush", b"LPUSH", b"RPush"]), k()] + [e() for _ in range(r.randrange(1, 5))]
+    if c < 19:
+        return [pick(r, [b"lpushx", b"rpushx"]), k()] + [e() for _ in range(r.randrange(1, 3))]
+    if c < 28:
+        a = [pick(r, [b"lpop", b"rpop"]), k()]
+        if r.random() < 0.5:
+            a.append(pick(r, CNTS))
+        return a
+    if c < 32:
+        return [b"llen", k()]
+    if c < 39:
+        return [b"lindex", k(), pick(r, IDX)]
+    if c < 49:
+        return [b"lrange", k(), pick(r, IDX), pick(r, IDX)]
+    if c < 55:
+        return [b"lset", k(), pick(r, IDX), e()]
+    if c < 63:
+        return [b"lrem", k(), pick(r, CNTS), e()]
+    if c < 70:
+        return [b"ltrim", k(), pick(r, IDX), pick(r, IDX)]
+    if c < 82:
+        a = [b"lpos", k(), e()]
+        for _ in range(r.choice([0, 1, 1, 2, 3])):
+            a.append(randcase(r, pick(r, [b"rank", b"count", b"maxlen", b"bogus"])))
+            if r.random() < 0.95:
+                a.append(pick(r, [b"0", b"1", b"2", b"3", b"-1", b"-2", b"-3", b"4", b"10", b"x", b"-9223372036854775808"]))
+        return a
+    if c < 89:
+        return [b"lmove", k(), k(), randcase(r, pick(r, [b"left", b"right", b"up"])), randcase(r, pick(r, [b"left", b"right"]))]
+    if c < 93:
+        return [pick(r, [b"blpop", b"brpop"])] + [k() for _ in range(r.randrange(1, 4))] + [pick(r, [b"1", b"2", b"-1", b"x", b"1"])]
+    if c < 96:
+        return [pick(r, [b"exists", b"type", b"del", b"ttl"]), k()]
+    if c < 98:
+        return [b"expire", k(), pick(r, [b"1", b"2", b"100"])]
+    name = pick(r, [b"lpush", b"rpush", b"lpop", b"rpop", b"llen", b"lindex", b"lrange", b"lset", b"lrem", b"ltrim", b"lpos",
+                    b"lmove", b"blpop", b"brpop", b"lpushx", b"rpushx"])
+    return [name] + [pick(r, ELEMS + IDX) for _ in range(r.randrange(0, 5))]
+
+
+def gen_family(prefix, cmdfn, seed, ncases, maxlen=30, prepop=None):
+    r = random.Random(seed)
+    cases = []
+    for i in range(ncases):
+        c = Case("%s_%d_%d" % (prefix, seed, i))
+        keys = r.sample(KEYS, r.randrange(2, 6))
+        if prepop:
+            prepop(r, c, keys)
+        n = r.randrange(1, maxlen + 1)
+        every = r.random() < 0.5
+        for _ in range(n):
+            c.cmd(cmdfn(r, keys), sleep_ms=pick(r, SLEEPS) if r.random() < 0.15 else 0)
+            if every:
+                c.dump()
+        c.dump()
+        cases.append(c)
+    return cases
+
+
+def prepop_str(r, c, keys):
+    # one of the keys holds a string, so WRONGTYPE paths are exercised
+    if r.random() < 0.6:
+        c.cmd([b"set", keys[0], pick(r, VALS)])
+
+
+def gen_c09(seed, ncases):
+    return gen_family("c09", list_cmd, seed, ncases, prepop=prepop_str)
